@@ -21,28 +21,28 @@ theorem finish_ms (v v' : WpState) (ms : List St) (why : String) (h : finish v m
 
 /-- the state an event starts from -/
 def pre : Ev → St → St
-  | .call _ mg, m => addIdle m mg
+  | .call w mg d, m => addIdle m w mg d
   | _, m => m
 
-theorem same_ms (v v' : WpState) (e : Ev) (h : v'.ms = v.ms) (he : ∀ w mg, e ≠ .call w mg) :
+theorem same_ms (v v' : WpState) (e : Ev) (h : v'.ms = v.ms) (he : ∀ w mg d, e ≠ .call w mg d) :
     ∀ m' ∈ v'.ms, ∃ m ∈ v.ms, Steps (pre e m) m' := by
   intro m' hm'
   refine ⟨m', h ▸ hm', ?_⟩
-  cases e <;> first | exact .refl _ | exact absurd rfl (he _ _)
+  cases e <;> first | exact .refl _ | exact absurd rfl (he _ _ _)
 
 theorem adv_ms (v v' : WpState) (e : Ev) (alts : St → List (List Label)) (post : St → Bool)
-    (h : v'.ms = advance v.ms alts post) (he : ∀ w mg, e ≠ .call w mg) :
+    (h : v'.ms = advance v.ms alts post) (he : ∀ w mg d, e ≠ .call w mg d) :
     ∀ m' ∈ v'.ms, ∃ m ∈ v.ms, Steps (pre e m) m' := by
   intro m' hm'
   obtain ⟨m, hm, hs⟩ := advance_sound v.ms alts post m' (h ▸ hm')
   refine ⟨m, hm, ?_⟩
-  cases e <;> first | exact hs | exact absurd rfl (he _ _)
+  cases e <;> first | exact hs | exact absurd rfl (he _ _ _)
 
 theorem legalStep_sound (v v' : WpState) (e : Ev) (he : e ≠ .reset) (h : legalStep v e = .ok v') :
     ∀ m' ∈ v'.ms, ∃ m ∈ v.ms, Steps (pre e m) m' := by
   cases e with
   | reset => exact absurd rfl he
-  | call w mg =>
+  | call w mg d =>
     simp only [legalStep] at h
     split at h
     · cases h
@@ -67,8 +67,33 @@ theorem legalStep_sound (v v' : WpState) (e : Ev) (he : e ≠ .reset) (h : legal
     repeat' split at h
     all_goals first
       | (cases h; done)
-      | (cases h; exact same_ms _ _ _ rfl (by intro _ _ hh; cases hh))
-      | exact adv_ms _ _ _ _ _ (finish_ms _ _ _ _ h) (by intro _ _ hh; cases hh)
+      | (cases h; exact same_ms _ _ _ rfl (by intro _ _ _ hh; cases hh))
+      | exact adv_ms _ _ _ _ _ (finish_ms _ _ _ _ h) (by intro _ _ _ hh; cases hh)
+
+theorem advance_post (ms : List St) (alts : St → List (List Label)) (post : St → Bool) (m' : St)
+    (h : m' ∈ advance ms alts post) : post m' = true := by
+  simp only [advance, List.mem_flatMap, List.mem_filter] at h
+  obtain ⟨_, _, _, hp⟩ := h
+  exact hp
+
+/-- what the `group` check checks: when every call carried its data, an accepted `wp group seq n nb sync`
+line means that in every candidate the leader's record has `gn = n`, `batches.length = nb`, `gsync = sync`
+(the quantities `C10.group_records_exact` / `C10.group_sync` are about) -/
+theorem group_checked (v v' : WpState) (seq n nb : Nat) (sy : Bool) (hx : v.exact = true)
+    (h : legalStep v (.group seq n nb (some sy)) = .ok v') :
+    ∀ m' ∈ v'.ms, ∃ l, m'.ws[v.lead]? = some l ∧ l.gn = n ∧ l.batches.length = nb ∧ l.gsync = sy := by
+  simp only [legalStep] at h
+  repeat' split at h
+  all_goals first
+    | (cases h; done)
+    | (have hms := finish_ms _ _ _ _ h
+       intro m' hm'
+       rw [hms] at hm'
+       have hp := advance_post _ _ _ m' hm'
+       simp only [hx, Bool.not_true, Bool.false_or, Bool.and_eq_true, recOk, nbOk, syncOk] at hp
+       cases hl : m'.ws[v.lead]? with
+       | none => simp [hl] at hp
+       | some l => simp [hl] at hp; exact ⟨l, rfl, hp.1.1, hp.1.2, hp.2⟩)
 
 /-- every candidate is a reachable state of the transition system -/
 def WpReach (v : WpState) : Prop := ∀ m ∈ v.ms, Reachable m
@@ -77,7 +102,7 @@ theorem initWp_reach : WpReach initWp := by
   intro m hm
   simp only [initWp, List.mem_singleton] at hm
   subst hm
-  refine ⟨initSt, ⟨rfl, rfl, ?_⟩, .refl _⟩
+  refine ⟨initSt, ⟨rfl, rfl, rfl, ?_⟩, .refl _⟩
   intro w hw
   simp only [initSt, List.mem_cons, List.not_mem_nil, or_false] at hw
   rcases hw with rfl | rfl <;> simp [Thread.fresh]
@@ -90,7 +115,7 @@ theorem legalStep_reach (v v' : WpState) (e : Ev) (hv : WpReach v) (h : legalSte
     obtain ⟨m, hm, hs⟩ := legalStep_sound v v' e he h m' hm'
     apply reachable_steps _ _ _ hs
     cases e <;> try exact hv m hm
-    exact reachable_append m _ (by simp [Thread.fresh]) (hv m hm)
+    exact reachable_append m _ (by simp [Thread.fresh, mirror]) (hv m hm)
 
 /-- an accepted trace: fold of `legalStep` -/
 def runEvents (v : WpState) : List Ev → Except String WpState
@@ -110,5 +135,35 @@ theorem runEvents_reach (es : List Ev) (v v' : WpState) (hv : WpReach v) (h : ru
     split at h
     · rename_i v1 h1; exact ih v1 (legalStep_reach v v1 e hv h1) h
     · cases h
+
+/-- every candidate runs the configuration `{}` (all flags as in the source, `C10.code_cfg`) -/
+def WpCfgOk (v : WpState) : Prop := ∀ m ∈ v.ms, m.cfg = {}
+
+theorem pre_cfg (e : Ev) (m : St) : (pre e m).cfg = m.cfg := by cases e <;> rfl
+
+theorem legalStep_cfg (v v' : WpState) (e : Ev) (hv : WpCfgOk v) (h : legalStep v e = .ok v') : WpCfgOk v' := by
+  by_cases he : e = .reset
+  · subst he; simp only [legalStep] at h; cases h
+    intro m hm
+    simp only [initWp, List.mem_singleton] at hm
+    subst hm; rfl
+  · intro m' hm'
+    obtain ⟨m, hm, hs⟩ := legalStep_sound v v' e he h m' hm'
+    rw [steps_cfg _ _ hs, pre_cfg, hv m hm]
+
+theorem runEvents_cfg (es : List Ev) (v v' : WpState) (hv : WpCfgOk v) (h : runEvents v es = .ok v') :
+    WpCfgOk v' := by
+  induction es generalizing v with
+  | nil => simp only [runEvents] at h; cases h; exact hv
+  | cons e es ih =>
+    simp only [runEvents] at h
+    split at h
+    · rename_i v1 h1; exact ih v1 (legalStep_cfg v v1 e hv h1) h
+    · cases h
+
+theorem initWp_cfg : WpCfgOk initWp := by
+  intro m hm
+  simp only [initWp, List.mem_singleton] at hm
+  subst hm; rfl
 
 end GoLevel.Driver.Wp
